@@ -61,4 +61,6 @@ import Bmc.Proofs.EndToEnd.HandshakeC02
 #print axioms Bmc.Proofs.GenLoops.V2Sessionless_buildAndSendPayload_serialize_error
 #print axioms Bmc.Proofs.EndToEnd.hsRun_sound
 #print axioms Bmc.Proofs.EndToEnd.viewAnswers_honest
+#print axioms Bmc.Proofs.EndToEnd.hsRun_incorrect_password
 #print axioms Bmc.Proofs.EndToEnd.generated_newV2Session_sound
+#print axioms Bmc.Proofs.EndToEnd.generated_newV2Session_incorrect_password
